@@ -213,6 +213,24 @@ pub fn gen_pair(g: &mut Gen) -> Pair {
     }
 }
 
+/// "default or absent" for a member the writer did not send: the default value, or an aggregate
+/// whose members are all absent / default-ish themselves
+fn defaultish(t: &Ty, v: &Val) -> bool {
+    if *v == default_val(t) {
+        return true;
+    }
+    match (t, v) {
+        (Ty::Struct(s), Val::Struct(ms)) => s
+            .members
+            .iter()
+            .zip(ms.iter())
+            .all(|(m, mv)| mv.as_ref().map(|x| defaultish(&m.ty, x)).unwrap_or(true)),
+        (Ty::Seq { .. }, Val::List(xs)) => xs.is_empty(),
+        (Ty::Arr { elem, .. }, Val::List(xs)) => xs.iter().all(|x| defaultish(elem, x)),
+        _ => false,
+    }
+}
+
 /// Does `got` (read with reader type rt) carry the writer's values for the common members and
 /// default / absent for the rest?
 fn matches(rt: &Ty, got: &Val, wt: &Ty, wv: &Val) -> Result<(), String> {
@@ -223,7 +241,7 @@ fn matches(rt: &Ty, got: &Val, wt: &Ty, wv: &Val) -> Result<(), String> {
                     Some(i) => match (&wvs[i], &gs[j]) {
                         (None, None) => {}
                         (None, Some(x)) => {
-                            if *x != default_val(&rm.ty) {
+                            if !defaultish(&rm.ty, x) {
                                 return Err(format!("{}:invented_value", rm.name));
                             }
                         }
@@ -239,7 +257,7 @@ fn matches(rt: &Ty, got: &Val, wt: &Ty, wv: &Val) -> Result<(), String> {
                     None => match &gs[j] {
                         None => {}
                         Some(x) => {
-                            if *x != default_val(&rm.ty) {
+                            if !defaultish(&rm.ty, x) {
                                 return Err(format!("{}:new_member_not_default", rm.name));
                             }
                         }
